@@ -65,6 +65,10 @@ class RunPlan:
         c = result.get("counters", {})
         return result.get("n_ops", 0) > 0 and any(k.endswith(".checked") and v for k, v in c.items())
 
+    def check_tasks(self, tier, seed, n):
+        """Explicit task list (boot, request); None = n seeded runs over self.boots()."""
+        return None
+
     def post_process(self, tasks, results, pool):
         """Hook: derive further violations from the batch (may append to
         results[i]["violations"]); used by differential oracles."""
@@ -96,17 +100,19 @@ class RunPlan:
             self.params_cache = dict(self.params_cache, outside_region=True)
         boots = self.boots(tier, seed)
         n = args.runs or (self.quick_runs if tier == "quick" else self.thorough_runs)
-        tasks = []
-        for i in range(n):
-            b = boots[i % len(boots)]
-            rs = h64(seed, self.prop, i)
-            tasks.append((b, self.request(rs, b)))
+        tasks = self.check_tasks(tier, seed, n)
+        if tasks is None:
+            tasks = []
+            for i in range(n):
+                b = boots[i % len(boots)]
+                rs = h64(seed, self.prop, i)
+                tasks.append((b, self.request(rs, b)))
         pool = driver.Pool(workers=args.workers)
         results = pool.run(tasks)
         harness = [(i, r["harness_error"]) for i, r in enumerate(results) if "harness_error" in r]
         if harness:
             for i, e in harness[:5]:
-                out("HARNESS-ERROR run=%d seed=%d %s" % (i, tasks[i][1]["seed"], e.strip().splitlines()[-1] if e.strip() else e))
+                out("HARNESS-ERROR run=%d seed=%s %s" % (i, tasks[i][1].get("seed"), e.strip().splitlines()[-1] if e.strip() else e))
             self.evidence(tier, seed, t0, tasks, results, [], {}, {}, harness=len(harness))
             return 2
 
@@ -128,8 +134,8 @@ class RunPlan:
                 st["pairs"] += 1
                 if a.get("digest") != results[i].get("digest"):
                     st["mismatches"] += 1
-                    out("HARNESS-NONDETERMINISM property=%s run=%d seed=%d %s != %s" % (
-                        self.prop, i, tasks[i][1]["seed"], results[i].get("digest"), a.get("digest")))
+                    out("HARNESS-NONDETERMINISM property=%s run=%d seed=%s %s != %s" % (
+                        self.prop, i, tasks[i][1].get("seed"), results[i].get("digest"), a.get("digest")))
             if st["mismatches"]:
                 self.evidence(tier, seed, t0, tasks, results, [], {}, st)
                 return 3
@@ -195,8 +201,8 @@ class RunPlan:
             path = self.minimise_and_write(sig, tasks[i], results[i], v)
             replays.append(path)
             out("VIOLATION property=%s replay=%s" % (self.prop, path))
-            out("  signature=%s first_seed=%d occurrences=%d detail=%s" % (
-                sig, tasks[i][1]["seed"], len(by_sig[sig]), canon(v.get("detail"))[:400]))
+            out("  signature=%s first_seed=%s occurrences=%d detail=%s" % (
+                sig, tasks[i][1].get("seed"), len(by_sig[sig]), canon(v.get("detail"))[:400]))
             rc = 1
         for v in extra_v:
             if match_finding(findings, self.prop, v["signature"]) is None:
